@@ -1078,7 +1078,7 @@ static void run_input(ctx_t *c, const char *b, int n, int value_idx)
 enum { CT_SEED, CT_DEV1, CT_DEV2, CT_SHORT, CT_DEEP };
 
 /* deeply nested documents: shape x depth, built at run time */
-#define NDEEP_SHAPE 4
+#define NDEEP_SHAPE 5
 static const int deep_n[3] = { 900, 1100, 40000 };
 
 typedef struct kase {
@@ -1353,10 +1353,11 @@ static void run(int tier, long idx, vf_result *r)
 	     */
 	    static const char *const shn[NDEEP_SHAPE] = {
 		"flow sequences", "flow mappings", "block sequences",
-		"flow sequences as calibration-file properties" };
+		"flow sequences as calibration-file properties",
+		"levels named by dotted map keys of 100 components" };
 	    static char what[120];
 	    int n = deep_n[k->lo], sh = k->kind;
-	    size_t cap = (size_t)n * 6 + 512, len = 0;
+	    size_t cap = (size_t)n * 8 + 1024, len = 0;
 	    char *buf = malloc(cap);
 	    if (buf == NULL)
 		break;
@@ -1373,6 +1374,19 @@ static void run(int tier, long idx, vf_result *r)
 		}
 		buf[len++] = '1';
 		memset(buf + len, '}', (size_t)n); len += (size_t)n;
+	    } else if (sh == 4) {
+		/* n / 100 flow mappings whose keys are a.a. ... .a */
+		int d = n / 100;
+		for (int i = 0; i < d; ++i) {
+		    buf[len++] = '{';
+		    for (int j = 0; j < 100; ++j) {
+			buf[len++] = 'a';
+			buf[len++] = j < 99 ? '.' : ':';
+		    }
+		    buf[len++] = ' ';
+		}
+		buf[len++] = '1';
+		memset(buf + len, '}', (size_t)d); len += (size_t)d;
 	    } else {
 		for (int i = 0; i < n; ++i) {
 		    buf[len++] = '-'; buf[len++] = ' ';
